@@ -44,11 +44,43 @@ func main() {
 	replay := flag.String("replay", "", "replay file written by an earlier run")
 	mutant := flag.String("mutant", "", "internal: apply this mutant (json file) as an overlay and print fired rule keys")
 	list := flag.Bool("list", false, "list rules and properties")
+	rulesJSON := flag.Bool("rules", false, "print the rule catalogue as JSON")
 	goarch := flag.String("goarch", "", "GOARCH to load with (default: host)")
 	noSelfval := flag.Bool("no-selfval", false, "thorough tier without the mutant corpus")
 	flag.BoolVar(&dumpAll, "dump", false, "print every obligation")
 	flag.Parse()
 
+	if *rulesJSON {
+		type rj struct {
+			Rule, Doc string
+			Floor     int
+			Props     []string
+		}
+		var out []rj
+		var names []string
+		for n := range rules {
+			names = append(names, n)
+		}
+		sort.Strings(names)
+		for _, n := range names {
+			var ps []string
+			for p, rs := range propRules {
+				if p == "ALL" || !strings.HasPrefix(p, "C") || len(p) != 3 {
+					continue
+				}
+				for _, r := range rs {
+					if r == n {
+						ps = append(ps, p)
+					}
+				}
+			}
+			sort.Strings(ps)
+			out = append(out, rj{n, rules[n].Doc, rules[n].Floor, ps})
+		}
+		b, _ := json.MarshalIndent(out, "", " ")
+		fmt.Println(string(b))
+		return
+	}
 	if *list {
 		var ps []string
 		for p := range propRules {
